@@ -126,11 +126,17 @@ class Facts:
 
     def functions(self, names=None):
         """All exported function instances of the given drivers (default: all but bitpack)."""
-        names = names or [d for d in self.drivers if d != "bitpack"]
+        names = self._names(names)
         out = []
         for n in names:
             out += self.load(n)["functions"]
         return out
+
+    def _names(self, names):
+        if not names:
+            return [d for d in self.drivers if d != "bitpack"]
+        # thorough tier: the extra instantiation drivers (t_*) are analysed together with every family
+        return list(names) + [d for d in self.drivers if d.startswith("t_") and d not in names]
 
     def by_pattern(self, names=None):
         """pattern location -> first instance."""
@@ -140,14 +146,14 @@ class Facts:
         return bp
 
     def records(self, names=None):
-        names = names or [d for d in self.drivers if d != "bitpack"]
+        names = self._names(names)
         out = []
         for n in names:
             out += self.load(n)["records"]
         return out
 
     def globals(self, names=None):
-        names = names or [d for d in self.drivers if d != "bitpack"]
+        names = self._names(names)
         seen = {}
         for n in names:
             for g in self.load(n)["globals"]:
